@@ -10,3 +10,5 @@ import (
 const hooksOn = true
 
 func waiterTable(st kvs.Storage) (entries, waiters int, ok bool) { return inmem.VerifWaiterTable(st) }
+
+func withStorageLock(st kvs.Storage, f func()) bool { return inmem.VerifWithLock(st, f) }
